@@ -411,6 +411,4 @@ var layoutUnits = []*unitSpec{
 		layout: []string{"@0 0 PacketStatusSymbol:2 RunLength:13"}, decConst: map[string]uint64{"Type": 0}},
 	{name: "CCFeedbackMetricBlock", rfc: "RFC 8888 3.1 (metric block, received)", enc: "CCFeedbackMetricBlock.marshal", dec: "*CCFeedbackMetricBlock.unmarshal", decAlt: "W:0.7",
 		layout: []string{"@0 Received:1 ECN:2 ArrivalTimeOffset:13"}},
-	{name: "CCFeedbackReport", rfc: "RFC 8888 3.1", enc: "CCFeedbackReport.Marshal", dec: "", partial: true,
-		layout: []string{"@0 1 0 0 c5:11 c:0xCD _:16"}},
 }
